@@ -77,6 +77,7 @@ class SpyCtl:
         self.total = 0
         self.fault_hook = None  # (s, op, vpath, k_total, k_op) -> Exception | None
         self.gate_hook = None  # (s, op, vpath, k_total) -> awaitable | None
+        self.pregate_hook = None  # the same, asked before the call executes
         self.stat_hook = None  # (real_path, stats) -> stats
         self.state = None
         self.quiet_ops = ()
@@ -127,6 +128,11 @@ class SpyFS(pathio.AbstractPathIO):
             rec["escape"] = True
         if info:
             rec.update(info)
+        # a backend with latency *before* the effect (a remote store): the call is held before it executes; cancelled there, it
+        # never happens
+        pre = ctl.pregate_hook(s, op, segs, kt) if ctl.pregate_hook else None
+        if pre is not None:
+            await asyncio.shield(pre)
         fault = ctl.fault_hook(s, op, segs, kt, ko) if ctl.fault_hook else None
         if fault is not None:
             rec["res"] = "fault"
